@@ -134,6 +134,23 @@ CHECKS = {
             "names, no duplicates. The evidence lists which optimisation methods actually ran.",
             "Trusted: generator ground truth for chain positions; own XML topology parse and patch semantics; a "
             "deletion counts as reported when a WARNING record names atom and residue number.", "DESIGN.md#c03"),
+    "C04": ("exploration", "end-state monitor (input heavy atoms vs independent column read; swap-aware internal-geometry check) + pre/post contract on every Debump.set_dihedral_angle call in vivo and in direct drive (moved set = bond-graph component beyond the pivot)",
+            "Every input heavy atom of every successful run is compared with the input: backbone, cap, nucleic and water "
+            "atoms must not move, side-chain atoms only with all bond lengths / 1-3 distances among input heavy atoms "
+            "unchanged (label exchange of the two carboxylic oxygens recognised), nothing under the no-move options; "
+            "every torsion change (thousands in vivo, every residue x position x dihedral directly) must move exactly the "
+            "atoms connected beyond the pivot bond, rigidly.",
+            "Trusted: generator ground truth for residue identity; own topology parse for bonded / 1-3 pairs; the "
+            "residue's live bond graph for connectivity.", "DESIGN.md#c04"),
+    "C05": ("exploration", "in-vivo placement monitors (find_coordinates = Kabsch image; anchor identity against own topology parse; rigid torsion / tetrahedral rotation contracts) + end-state shadow invariance of each added atom's bonded neighbourhood",
+            "Every template fit of every run is compared with the SVD fit and, for hydrogen addition and heavy-atom "
+            "repair, the template point and each anchor are checked to be the topology's coordinates of the right "
+            "named atoms paired with those atoms' positions; every added atom's distances to its parent and the "
+            "parent's neighbours at placement time are compared with the end state (2e-3 A), its parent bond length with "
+            "the template within the fit's own residual, nearest heavy atom = parent, XH3 groups threefold, no "
+            "coincident atoms.",
+            "Trusted: numpy SVD; own topology parse; tolerances 0.03 A + fit residual (fit-placed atoms), 0.15 A sanity "
+            "bound for sibling-completed atoms, 0.06 A for water O-H.", "DESIGN.md#c05"),
 }
 
 NOT_APPLICABLE = {}
